@@ -452,7 +452,11 @@ class Interp:
       return v.len > 0
     if isinstance(v, SDict):
       if v.open_:
-        raise Unsupported('truthiness of open dict')
+        if len(v.items) > 0:
+          return True
+        if v.nonempty is None:
+          v.nonempty = z3.Bool(fresh_name('dict_nonempty'))
+        return v.nonempty
       return len(v.items) > 0
     if isinstance(v, SAny):
       b = v.memo.get('truth')
@@ -1669,7 +1673,7 @@ class Interp:
         return False
       return SBool(z3.Or(*zs))
     if isinstance(container, (dict,)):
-      if is_concrete(item):
+      if is_concrete(item) and all(is_concrete(k) or isinstance(k, SObj) for k in container):
         return item in container
       zs = [self.truth_z(self.compare(ast.Eq, k, item, frame)) for k in container]
       zs = [z for z in zs if z is not False]
@@ -1682,6 +1686,8 @@ class Interp:
           return True
         if not container.open_:
           return False
+        # open remainder: membership is an unknown, stable per (dict, key)
+        return SBool(self.opendict_has(container, item))
       raise Unsupported('membership in symbolic dict')
     if isinstance(container, SSeq):
       zi = container.unwrap(item)
@@ -1696,6 +1702,15 @@ class Interp:
     if isinstance(container, SAny) or isinstance(item, SAny):
       return self.opaque_compare(ast.In, item, container)
     raise Unsupported(f'`in` on {container!r}')
+
+  def opendict_has(self, d, key):
+    z = d.memo.get(key)
+    if z is None:
+      z = z3.Bool(fresh_name('in_opendict'))
+      d.memo[key] = z
+      t = self.truth_z(d)
+      self.path.assume(z3.Implies(z, t if not isinstance(t, bool) else z3.BoolVal(t)), check=False)
+    return z
 
   # -- attribute access -------------------------------------------------------------
   def ex_Attribute(self, e, frame):
